@@ -18,7 +18,7 @@ def classify(prog, cg, key, cfg=(256, 4)):
     """Byte-form class of a codec function: the Uint byte-form producers/consumers it (or its closures) delegates to."""
     names = set()
     rev = False
-    todo = [key] + [c for c in cg.edges.get(key, ()) if "::{closure" in c and c.startswith(key)]
+    todo = [key] + ir.local_helpers(prog, key)      # closures and private helpers of the same file
     for k in todo:
         v = prog.view(k, cfg if prog.is_cfg_generic(prog.bodies[k]) else None)
         for _bi, t in v.calls():
